@@ -1,6 +1,8 @@
 """C05 - cache admission."""
 from . import cachefam as F
 
+from . import extra as X
+
 EXPLANATION = ("Structural necessary conditions of cache admission, decided on the CFG of Context.evaluate / "
                "evaluate_action and on every leaf cache back-end: admission guard, volatility propagation, "
                "caching-flag conjunction, read-bypass => write-bypass, error refusal + ready gate per back-end, "
@@ -18,3 +20,5 @@ def run(chk):
     F.rule_filed_under_canonical_text(chk, ev, chk.repo, "C05.6")
     F.rule_data_presence_witness(chk, chk.repo, "C05.7")
     F.rule_memory_copy(chk, chk.repo, "C05.8")
+    X.rule_metadata_keyed_by_own_query(chk, "C05.9")
+    X.rule_memory_per_key_locality(chk, "C05.10")
